@@ -16,24 +16,26 @@ VARIABLES mode,            \* "heal" (everything must complete) | "dead" (the ne
           sendOpen,        \* set of <<ep, id>>: a send call is pending
           mustEos,         \* set of <<receiver ep, id>>: the sender finished, the receiver has not seen the end yet
           mustDone,        \* set of <<sender ep, id>>: finished streams not yet acknowledged to the application
-          failed           \* set of <<ep, id>> streams that ended with an error (reset / stop / connection error)
-lvars == <<mode, idleT, lastRx, lastTx, pto, closedAt, sendOpen, mustEos, mustDone, failed>>
+          failed,          \* set of <<ep, id>> streams that ended with an error (reset / stop / connection error)
+          hx               \* [heal |-> time from which the network delivers everything, excused |-> an idle timeout fell due before
+                           \*  any endpoint had to send again after that time (exponential probe back-off outlasted the outage)]
+lvars == <<mode, idleT, lastRx, lastTx, pto, closedAt, sendOpen, mustEos, mustDone, failed, hx>>
 Other(e) == IF e = "c" THEN "s" ELSE "c"
 Max2(a, b) == IF a >= b THEN a ELSE b
 Min2(a, b) == IF a <= b THEN a ELSE b
-LFresh(m, idle) == [mode |-> m, idleT |-> idle, lastRx |-> [e \in Ep |-> 0], lastTx |-> [e \in Ep |-> 0], pto |-> [e \in Ep |-> 1000000],
+LFresh(m, idle, heal) == [mode |-> m, hx |-> [heal |-> heal, excused |-> FALSE], idleT |-> idle, lastRx |-> [e \in Ep |-> 0], lastTx |-> [e \in Ep |-> 0], pto |-> [e \in Ep |-> 1000000],
                     closedAt |-> [e \in Ep |-> None], sendOpen |-> {}, mustEos |-> {}, mustDone |-> {}, failed |-> {}]
 Set(st) == mode' = st.mode /\ idleT' = st.idleT /\ lastRx' = st.lastRx /\ lastTx' = st.lastTx /\ pto' = st.pto /\ closedAt' = st.closedAt
-           /\ sendOpen' = st.sendOpen /\ mustEos' = st.mustEos /\ mustDone' = st.mustDone /\ failed' = st.failed
-LInit == LET st == LFresh("free", 30000000) IN mode = st.mode /\ idleT = st.idleT /\ lastRx = st.lastRx /\ lastTx = st.lastTx /\ pto = st.pto
-         /\ closedAt = st.closedAt /\ sendOpen = st.sendOpen /\ mustEos = st.mustEos /\ mustDone = st.mustDone /\ failed = st.failed
+           /\ sendOpen' = st.sendOpen /\ mustEos' = st.mustEos /\ mustDone' = st.mustDone /\ failed' = st.failed /\ hx' = st.hx
+LInit == LET st == LFresh("free", 30000000, 0) IN mode = st.mode /\ idleT = st.idleT /\ lastRx = st.lastRx /\ lastTx = st.lastTx /\ pto = st.pto
+         /\ closedAt = st.closedAt /\ sendOpen = st.sendOpen /\ mustEos = st.mustEos /\ mustDone = st.mustDone /\ failed = st.failed /\ hx = st.hx
 
-Rx(e, t) == lastRx' = [lastRx EXCEPT ![e] = t] /\ UNCHANGED <<mode, idleT, lastTx, pto, closedAt, sendOpen, mustEos, mustDone, failed>>
-TxEliciting(e, t) == lastTx' = [lastTx EXCEPT ![e] = t] /\ UNCHANGED <<mode, idleT, lastRx, pto, closedAt, sendOpen, mustEos, mustDone, failed>>
+Rx(e, t) == lastRx' = [lastRx EXCEPT ![e] = t] /\ UNCHANGED <<mode, idleT, lastTx, pto, closedAt, sendOpen, mustEos, mustDone, failed, hx>>
+TxEliciting(e, t) == lastTx' = [lastTx EXCEPT ![e] = t] /\ UNCHANGED <<mode, idleT, lastRx, pto, closedAt, sendOpen, mustEos, mustDone, failed, hx>>
 Pow2(n) == IF n = 0 THEN 1 ELSE IF n = 1 THEN 2 ELSE IF n = 2 THEN 4 ELSE IF n = 3 THEN 8 ELSE IF n = 4 THEN 16 ELSE IF n = 5 THEN 32 ELSE 64
 MetricsSeen(e, srtt, rttvar, mad, count) ==
   pto' = [pto EXCEPT ![e] = Min2((srtt + Max2(4 * rttvar, 1000) + mad) * Pow2(count), 600000000)]
-  /\ UNCHANGED <<mode, idleT, lastRx, lastTx, closedAt, sendOpen, mustEos, mustDone, failed>>
+  /\ UNCHANGED <<mode, idleT, lastRx, lastTx, closedAt, sendOpen, mustEos, mustDone, failed, hx>>
 
 \* the connection ended at e
 Closed(e, kind, t) ==
@@ -41,27 +43,31 @@ Closed(e, kind, t) ==
        /\ t + Slack >= lastRx[e] + idleT                                        \* not before the negotiated timeout
        /\ t <= Max2(lastRx[e], lastTx[e]) + Max2(idleT, 3 * pto[e]) + Slack      \* not later than the effective timeout
   /\ closedAt' = [closedAt EXCEPT ![e] = IF @ = None THEN t ELSE @]
+  \* "delivered again for long enough": an idle timeout (justified above) that falls due less than one backed-off probe
+  \* timeout after the network healed ends the connection before anybody had to send; that is not a liveness failure
+  /\ hx' = [hx EXCEPT !.excused = @ \/ (kind = "idle" /\ lastRx[e] <= hx.heal /\ t <= hx.heal + Max2(pto["c"], pto["s"]) + Slack)]
   /\ UNCHANGED <<mode, idleT, lastRx, lastTx, pto, sendOpen, mustEos, mustDone, failed>>
 
-SendCall(e, id) == sendOpen' = sendOpen \cup {<<e, id>>} /\ UNCHANGED <<mode, idleT, lastRx, lastTx, pto, closedAt, mustEos, mustDone, failed>>
-SendOk(e, id) == sendOpen' = sendOpen \ {<<e, id>>} /\ UNCHANGED <<mode, idleT, lastRx, lastTx, pto, closedAt, mustEos, mustDone, failed>>
+SendCall(e, id) == sendOpen' = sendOpen \cup {<<e, id>>} /\ UNCHANGED <<mode, idleT, lastRx, lastTx, pto, closedAt, mustEos, mustDone, failed, hx>>
+SendOk(e, id) == sendOpen' = sendOpen \ {<<e, id>>} /\ UNCHANGED <<mode, idleT, lastRx, lastTx, pto, closedAt, mustEos, mustDone, failed, hx>>
 Finished(e, id) == mustEos' = mustEos \cup {<<Other(e), id>>} /\ mustDone' = mustDone \cup {<<e, id>>}
-                   /\ UNCHANGED <<mode, idleT, lastRx, lastTx, pto, closedAt, sendOpen, failed>>
-SendDone(e, id) == mustDone' = mustDone \ {<<e, id>>} /\ UNCHANGED <<mode, idleT, lastRx, lastTx, pto, closedAt, sendOpen, mustEos, failed>>
-Eos(e, id) == mustEos' = mustEos \ {<<e, id>>} /\ UNCHANGED <<mode, idleT, lastRx, lastTx, pto, closedAt, sendOpen, mustDone, failed>>
+                   /\ UNCHANGED <<mode, idleT, lastRx, lastTx, pto, closedAt, sendOpen, failed, hx>>
+SendDone(e, id) == mustDone' = mustDone \ {<<e, id>>} /\ UNCHANGED <<mode, idleT, lastRx, lastTx, pto, closedAt, sendOpen, mustEos, failed, hx>>
+Eos(e, id) == mustEos' = mustEos \ {<<e, id>>} /\ UNCHANGED <<mode, idleT, lastRx, lastTx, pto, closedAt, sendOpen, mustDone, failed, hx>>
 \* an operation on stream id reported a failure at e: the stream is over for both directions' obligations at e
 Failed(e, id) ==
   /\ failed' = failed \cup {<<e, id>>}
   /\ sendOpen' = sendOpen \ {<<e, id>>} /\ mustDone' = mustDone \ {<<e, id>>} /\ mustEos' = mustEos \ {<<e, id>>}
-  /\ UNCHANGED <<mode, idleT, lastRx, lastTx, pto, closedAt>>
+  /\ UNCHANGED <<mode, idleT, lastRx, lastTx, pto, closedAt, hx>>
 \* a stream that was reset / stopped by either application is released from the completion obligations
 Released(id) ==
   /\ sendOpen' = {x \in sendOpen : x[2] # id} /\ mustDone' = {x \in mustDone : x[2] # id} /\ mustEos' = {x \in mustEos : x[2] # id}
-  /\ UNCHANGED <<mode, idleT, lastRx, lastTx, pto, closedAt, failed>>
+  /\ UNCHANGED <<mode, idleT, lastRx, lastTx, pto, closedAt, failed, hx>>
 
 \* end of the run
 End(t) ==
-  /\ mode = "heal" => (sendOpen = {} /\ mustEos = {} /\ mustDone = {} /\ failed = {})       \* everything got through
+  /\ mode = "heal" => ((sendOpen = {} /\ mustEos = {} /\ mustDone = {} /\ failed = {})      \* everything got through
+                       \/ (hx.excused /\ sendOpen = {}))                                    \* or a justified early idle timeout, reported
   /\ mode = "dead" => (sendOpen = {} /\ \A e \in Ep : closedAt[e] # None)                  \* both sides reported the failure
   /\ UNCHANGED lvars
 =============================================================================
